@@ -9,6 +9,7 @@
 __all__ = """
 SHOW_INFORMATIONAL_MESSAGES
 check_workers
+finish_queue
 put_to_workers
 resolve_parallelism
 """.split()
@@ -16,6 +17,7 @@ resolve_parallelism
 import multiprocessing as mp
 import os
 import sys
+import threading
 
 SHOW_INFORMATIONAL_MESSAGES = True
 
@@ -127,3 +129,45 @@ def put_to_workers(queue, item, workers, done_event):
             except Exception:
                 done_event.set()
                 raise
+
+
+def finish_queue(queue, workers, done_event):
+    """Close the work queue and wait until everything put on it has been
+    handed to the workers, giving up if the workers are failing.
+
+    Parameters
+    ----------
+    queue : :class:`multiprocessing.Queue`
+        The queue feeding the workers; nothing more will be put on it.
+    workers : iterable of :class:`multiprocessing.Process`
+        The worker processes.
+    done_event : :class:`multiprocessing.Event`
+        The event telling the workers to exit once the queue is empty. It is
+        set if this function raises, so that surviving workers do not linger.
+
+    Notes
+    -----
+    ``Queue.join_thread()`` waits for the queue's feeder thread, which blocks
+    for as long as the pipe to the workers is full. If the workers have died
+    -- say because one of them left a half-written tile behind that the others
+    then failed to read -- nobody drains the pipe any more and a plain
+    ``join_thread()`` would never return. So the join happens in a helper
+    thread while this function keeps an eye on the workers.
+    """
+    queue.close()
+
+    joiner = threading.Thread(target=queue.join_thread, daemon=True)
+    joiner.start()
+
+    while True:
+        joiner.join(0.5)
+
+        if not joiner.is_alive():
+            return
+
+        try:
+            check_workers(workers)
+        except Exception:
+            done_event.set()
+            queue.cancel_join_thread()
+            raise
